@@ -356,6 +356,8 @@ func c10(c *Ctx) {
 	oldMax := store.VerifMaxCandidateCount()
 	defer store.VerifSetMaxCandidateCount(oldMax)
 
+	c10CachePart(c) // `cc` ops: byte level of context.data's candidate slots (c10_cache.go)
+
 	// ---------------- Part C first (its findings must not be cut by the failure cap) ----------------
 	c10EnginePart(c)
 
